@@ -704,6 +704,16 @@ where
         set(self.sink.elem_name(&self.current_node()).expanded())
     }
 
+    /// Is the current node a MathML annotation-xml element that is an HTML integration point?
+    fn current_node_is_annotation_xml_integration_point(&self) -> bool {
+        let node = self.current_node().clone();
+        let is_annotation_xml = matches!(
+            self.sink.elem_name(&node).expanded(),
+            expanded_name!(mathml "annotation-xml")
+        );
+        is_annotation_xml && self.sink.is_mathml_annotation_xml_integration_point(&node)
+    }
+
     // Insert at the "appropriate place for inserting a node".
     fn insert_appropriately(&self, child: NodeOrText<Handle>, override_target: Option<Handle>) {
         let insertion_point = self.appropriate_place_for_insertion(override_target);
@@ -1879,7 +1889,8 @@ where
         self.unexpected(&tag);
         while !self.current_node_in(|n| {
             *n.ns == ns!(html) || mathml_text_integration_point(n) || svg_html_integration_point(n)
-        }) {
+        }) && !self.current_node_is_annotation_xml_integration_point()
+        {
             self.pop();
         }
         self.step(self.mode.get(), Token::Tag(tag))
